@@ -439,7 +439,18 @@ impl Installation {
     ///
     /// Returns error if root file cannot be loaded
     pub fn load_root_file(&self, data: &[u8]) -> Result<()> {
-        self.resolver.load_root_file(data)
+        self.resolver.load_root_file(data)?;
+        self.clear_read_cache();
+        Ok(())
+    }
+
+    /// Forget what reads have cached (the cells of paths and `FileDataIDs`
+    /// depend on the manifests). The lock is only ever taken for reading, so
+    /// `try_read` cannot fail; the map itself is concurrent.
+    fn clear_read_cache(&self) {
+        if let Ok(cache) = self.cache.try_read() {
+            cache.clear();
+        }
     }
 
     /// Load encoding file for content resolution
@@ -448,7 +459,9 @@ impl Installation {
     ///
     /// Returns error if encoding file cannot be loaded
     pub fn load_encoding_file(&self, data: &[u8]) -> Result<()> {
-        self.resolver.load_encoding_file(data)
+        self.resolver.load_encoding_file(data)?;
+        self.clear_read_cache();
+        Ok(())
     }
 
     /// Verify installation integrity
